@@ -665,8 +665,8 @@ func (e *Engine) RunPath(fn *ssa.Function, prefix []Dec) (res PathResult) {
 		}()
 	}
 	e.sol.pop()
-	if e.sol.depth != 0 {
-		// unbalanced push/pop after an abort inside query: restart for safety
+	if e.sol.depth != 0 || e.sol.dead {
+		// unbalanced push/pop after an abort inside query, or a killed solver: restart
 		e.restartSolver()
 	}
 	res.Status, res.Why = status, why
